@@ -8,7 +8,7 @@
    [lexpected OutAll (t,es)] = ListToken(tag t, es in iteration order);
    [lexpected OutLast (t,es)] = the token of iteration k-1 retagged t, or Token(None) tagged t when k = 0. *)
 From Coq Require Import List NArith ZArith Permutation.
-From SF Require Import Base.Str Base.Dec Tags.Model Gather.Model Gather.Proofs Loop.Model Loop.Proofs Loop.Net Loop.NetProofs Loop.NetReal Loop.CombK.
+From SF Require Import Base.Str Base.Dec Tags.Model Gather.Model Gather.Proofs Loop.Model Loop.Proofs Loop.Net Loop.NetProofs Loop.NetReal Loop.CombK Loop.NetG Loop.NetGProofs Loop.NetGReal Loop.NetK Loop.NetKProofs Loop.NetKReal.
 Import ListNotations.
 Local Open Scope string_scope. Local Open Scope list_scope.
 
@@ -123,11 +123,66 @@ Theorem C06_loop_network_nonvacuous :
             lout (fst (ls s)) = [ListTok "0" [Tok "0.0" "0.0"]] /\ kof s [0%N] = 1.
 Proof. exact ex_real_run. Qed.
 
+(* ===== k input variables, m outputs (Loop/NetK.v) =====
+   The network the translator builds for a loop with k input variables and m outputs: k input forwarders,
+   LoopCombinatorStep reading k ports (per-port checklist and `terminated`, dot-product join by tag: Loop/CombK.v,
+   tied to the real step by the correspondence), the loop-when step taking one token from each of its k ports per
+   turn (so the variables travel as one stream from the combinator on), the body, m output forwarders and m loop
+   output steps, k back-propagation forwarders, the loop-terminator joining the m outputs and signalling all k ports.
+   Method: every (input variable, output) projection of that network moves by the moves of Loop/NetG.v -- the
+   one-variable network of Loop/Net.v in which "read" and "emit" of the two joining steps are separate moves
+   ([sim_reach]); the two invariants are re-proved for NetG (Loop/NetGProofs.v, Loop/NetGReal.v). *)
+Theorem C06_projection_k :
+  forall (LS : Type) (lstep : nat -> LS -> atok -> LS * list tag * bool) (linit0 : nat -> LS) (cont : tag -> bool)
+         (insts : list tag) (k m i0 j0 : nat),
+  i0 < k -> j0 < m ->
+  forall s, kreach LS lstep linit0 cont insts k m s ->
+  greach LS (lstep j0) (linit0 j0) cont insts (pi LS i0 j0 s).
+Proof. exact sim_reach. Qed.
+
+(* safety, any k >= 1 and m: a termination token reaches (or is on its way to) the loop output step of output j only
+   after that step has emitted an output for every instance -- for every loop condition, every behaviour of the
+   loop output steps, every interleaving *)
+Theorem C06_no_early_exit_k :
+  forall (LS : Type) (lstep : nat -> LS -> atok -> LS * list tag * bool) (linit0 : nat -> LS) (cont : tag -> bool)
+         (insts : list tag) (k m d : nat),
+  1 <= k -> 1 <= d -> (forall p, In p insts -> length p = d) ->
+  forall s, kreach LS lstep linit0 cont insts k m s ->
+  forall j, j < m ->
+  (nlgot s j = true \/ In ATerm (nqE s j) \/ In ATerm (nqFo s j)) ->
+  forall p, In p insts -> In p (nemitted s j).
+Proof. exact no_early_exit_k. Qed.
+
+(* END TO END, any k >= 1 and m: loop output step of output j = the model of CWLLoopOutput{All,Last}Step.run with
+   policy [polf j]; body value of output j at iteration t = [valf j t]; any condition; any family of pairwise
+   distinct instances of equal depth; every reachable state (= every interleaving): for every output j,
+   (a) until its loop output step has taken a termination token it has not terminated;
+   (b) once it has, every instance p ran exactly [kiter s p] iterations (condition true on p.0 .. , false on
+       p.(kiter s p); 0 and >= 10 included) and that step has emitted exactly one token per instance -- the values of
+       output j in iteration order (all) / the last one or null (last) -- and only then terminated. *)
+Theorem C06_loop_network_k :
+  forall (polf : nat -> policy) (valf : nat -> tag -> string) (cont : tag -> bool) (insts : list tag) (k m d : nat),
+  1 <= k -> 1 <= d -> (forall p, In p insts -> length p = d) -> NoDup insts ->
+  forall s, kreal polf valf cont insts k m s ->
+  forall j, j < m ->
+  (nlgot s j = false -> lfinal (fst (nls s j)) = None) /\
+  (nlgot s j = true ->
+     (forall p, In p insts -> (forall i, i < kiter s p -> cont (G.itag p i) = true) /\ cont (G.itag p (kiter s p)) = false) /\
+     Permutation (lout (fst (nls s j)))
+                 (map (fun p => lexpected (polf j) (p, G.iters (valf j) p (kiter s p))) insts) /\
+     lfinal (fst (nls s j)) = Some (match insts with [] => Skipped | _ => Completed end)).
+Proof. exact loop_network_k. Qed.
+(* two input variables, two outputs (all / last), one instance, zero iterations: 20 moves reach the state in which
+   both loop output steps have taken their termination token *)
+Theorem C06_loop_network_k_nonvacuous :
+  exists s, kreal ex_polf ex_valf ex_cont0 [[0%N]] 2 2 s /\ nlgot s 0 = true /\ nlgot s 1 = true /\
+            lout (fst (nls s 0)) = [ListTok "0" []] /\ lout (fst (nls s 1)) = [Tok "0" "null"].
+Proof. exact ex_k_run. Qed.
+
 (* k loop variables, STEP level only (Loop/CombK.v: LoopCombinatorStep with k input ports, per-port checklists and
    `terminated`, the dot-product join of the k ports by tag, one re-tagging per combination; tied to the real step
-   with 2 and 3 ports by the correspondence).  The k-variable NETWORK is not modelled: C06_no_early_exit and
-   C06_loop_network are for one loop variable.  What the one-variable proofs use of the combinator step holds
-   port-wise for any k and any sequence of (port, token) arrivals: *)
+   with 2 and 3 ports by the correspondence): what the network proofs use of the combinator step, port-wise, for any
+   k and any sequence of (port, token) arrivals: *)
 (* run() returns only when EVERY port has delivered its termination token and EVERY port's checklist is empty *)
 Theorem C06_combinator_k_exit : forall k (arr : list (nat * atok)),
   kdone (ck_run k arr) = true ->
@@ -193,6 +248,10 @@ Print Assumptions C06_loop_output_runs_until_term.
 Print Assumptions C06_loop_network.
 Print Assumptions C06_loop_network_nonvacuous.
 Print Assumptions C06_no_early_exit_nonvacuous.
+Print Assumptions C06_projection_k.
+Print Assumptions C06_no_early_exit_k.
+Print Assumptions C06_loop_network_k.
+Print Assumptions C06_loop_network_k_nonvacuous.
 Print Assumptions C06_combinator_k_exit.
 Print Assumptions C06_combinator_k_checklist_add.
 Print Assumptions C06_combinator_k_checklist_keep.
